@@ -115,7 +115,7 @@ PollDone(c) ==
             ELSE IF gout[c] = "panic" THEN lis ELSE [lis EXCEPT !.fail = @ + 1]
   /\ ev' = (IF gout[c] = "ok" THEN [res |-> "ok", val |-> gid[c], rq |-> c]
             ELSE IF gout[c] = "panic" THEN [res |-> "panic"]
-            ELSE [res |-> "err", kind |-> "inner1", val |-> gid[c]])
+            ELSE [res |-> "err", kind |-> (IF gout[c] = "e2" THEN "inner2" ELSE "inner1"), val |-> gid[c]])
            @@ [e |-> "poll", c |-> c, t |-> now, ns |-> 0, nd |-> 1, ndr |-> 0]
   /\ UNCHANGED <<cfg, now, deadline, gid, gout, ngate>>
 
